@@ -285,6 +285,12 @@ func (g *BatchGroupBy) encodeKey(dst []byte, b *vectorized.RecordBatch, rowIdx i
 // This helper is shared by BatchGroupBy.encodeKey and BatchAggregation.computeKey
 // so the two operators agree on key equivalence (Copilot G3 review issues 1+2).
 func appendKeyComponent(dst []byte, col vectorized.Column, rowIdx int) []byte {
+	// A NULL cell keeps its zero value in the data slice; mark it so that NULL
+	// and 0 (or NULL and "") stay different groups.
+	if col.IsNull(rowIdx) {
+		return append(dst, 0)
+	}
+	dst = append(dst, 1)
 	switch c := col.(type) {
 	case *vectorized.TypedColumn[int64]:
 		return appendIntKey(dst, c.Data()[rowIdx])
